@@ -15,7 +15,7 @@ func init() {
 	props["C13"] = func(c *ctx) { runDecoders(c, []string{"lds", "rds", "cds", "eds", "nds"}, 35, 2000) }
 }
 
-var decRegexes = []string{"^a.*", "v[12]", "(", "", "b$", ".*"}
+var decRegexes = []string{"^a.*", "v[12]", "(", "", "b$", ".*", "canary", "v2"}
 
 // runDecoders: one case = one response (a list of resource slots) of one type through the real decoder.
 // pMut = percentage of responses that get an extra mutated / wrongly typed slot.
